@@ -42,6 +42,8 @@ def main(argv: List[str]) -> int:
                           'seed': seed, 'gen': 'RandDoc'}
     res = docs.run_items(list(items.values()), rep, 'C05')
     doccheck.judge('C05', rep, res, items, lambda it: has_link(it['doc']))
+    from . import census
+    rep.census.require('C05', census.BASE + ['group.note.equal_twins', 'col.two_inline_refs', 'table.case_variant_siblings'], rep)
     rep.notes['documents'] = len(ds)
     for tid in list(items)[:2]:
         v, r = res[tid]
